@@ -141,6 +141,11 @@ class Sim:
                 self.fail("height", idx, "height failed")
         elif op == "iter":
             self.expect("iter", idx, ob, "ok", show_list(self.items(d)))
+            # C13: a tree that has just reported itself clean is listed right afterwards: what it lists (not what the
+            # reference says it should hold) must be the version it was loaded from / persisted as
+            if getattr(self, "clean_at", {}).get(tid) == idx - 1 and ob["outcome"] == "ok" and self.base.get(tid) is not None:
+                if ob["payload"] != show_list(self.items(self.base[tid])):
+                    self.fail("dirty", idx, "tree reported itself clean, but listing it gives entries that differ from the version it was loaded from / persisted as")
         elif op == "iterstop":
             self.expect("iter", idx, ob, "ok", show_list(self.items(d)[:int(t[2]) + 1]))
         elif op == "seekstop":
@@ -161,6 +166,10 @@ class Sim:
             if self.expect("dirty", idx, ob, "ok"):
                 if ob["payload"] == "b:0" and self.base.get(tid) is not None and self.base[tid] != d:
                     self.fail("dirty", idx, "tree reports clean but its contents differ from the version it was loaded from / persisted as")
+                if ob["payload"] == "b:0":
+                    if not hasattr(self, "clean_at"):
+                        self.clean_at = {}
+                    self.clean_at[tid] = idx
         elif op == "mkroot":
             if self.expect("mkroot", idx, ob, "ok"):
                 r = json.loads(ob["payload"][2:])
